@@ -14,6 +14,7 @@ Definition shift_event (c : Z) (e : event) : event :=
   match e with
   | EMsg id m => EMsg id (shift_msg c m)
   | EGdbMsg id t m => EGdbMsg id t (shift_msg c m)
+  | ESinkMsg id m => ESinkMsg id (shift_msg c m)
   | _ => e
   end.
 Definition shift_top (c : Z) (T : top) : top :=
@@ -32,7 +33,7 @@ Proof. reflexivity. Qed.
 Theorem step_shift c T e :
   step P (shift_top c T) (shift_event c e) = (shift_top c (fst (step P T e)), snd (step P T e)).
 Proof.
-  destruct T as [b s]. destruct e as [id m|t|cm| |id th m|id|cm]; unfold step, shift_top, shift_event;
+  destruct T as [b s]. destruct e as [id m|t|cm| |id th m|id|cm|id sv|id|id m]; unfold step, shift_top, shift_event;
     cbn [t_base t_sess].
   - cbn [shift_msg p_time]. rewrite rel_time_shift. destruct (rel_time b (p_time m)) as [b' rel]. cbn [fst snd].
     rewrite log_message_shift. destruct (log_message P s id rel m). reflexivity.
@@ -43,6 +44,11 @@ Proof.
     rewrite gdb_message_shift. destruct (gdb_message P s id th rel m). reflexivity.
   - destruct (gdb_destroy s id). reflexivity.
   - destruct (gdb_command s cm). reflexivity.
+  - destruct id; [reflexivity|]. destruct (open_conn s (c0 :: id) sv). reflexivity.
+  - destruct (close_conn s id). reflexivity.
+  - cbn [shift_msg p_time]. rewrite rel_time_shift. destruct (rel_time b (p_time m)) as [b' rel]. cbn [fst snd].
+    change (conn_message P s id rel (shift_msg c m)) with (conn_message P s id rel m).
+    destruct (conn_message P s id rel m) as [[[s1 o] err] st]. reflexivity.
 Qed.
 
 Theorem run_shift c es : forall T,
